@@ -288,6 +288,8 @@ func checkC01(r *core.Run, p *core.Program) {
 	r.Rule("C01.chunk-header", "the chunk header is written as (count << 1) | continuation and read as (header >> 1, header & 1 == 1).")
 	r.Rule("C01.time-table", "each compact-time kind is written with the code whose decoder case reads the same kind.")
 	r.Rule("C01.encoder-state", "the CBE encoder and writer re-initialise, on every path of their per-document entry points, every field they modify while encoding (a writer that keeps the previous document's string sink sends array contents to the wrong destination).")
+	r.Rule("C01.buffer-capacity", "data is copied into the CBE writer's scratch buffer only after ExpandBufferTo(len(src)) on every path, and the result of copy() does not decide how much is flushed (copy() stops at the destination's length: the array header would announce more bytes than are written).")
+	checkBufferCapacity(r, p, "C01.buffer-capacity", "cbe")
 	r.Rule("C01.no-unsafe-views", "no library package other than internal/arrays (judged by C26) imports package unsafe: in particular no decoded string or slice is a reinterpreted view of the reader's reused buffer.")
 	{
 		nPk := 0
